@@ -18,7 +18,8 @@ GROUPS = {
                ('dict', S, ('dc', 'TInner')), ('list', ('rule', I, {'ge': 0}))],
     'logical': [('opt', I), ('union', I, S), ('union', I, ('list', I)), ('xor', ('rule', I, {'gt': 0}), ('rule', I, {'lt': 0})),
                 ('andnot', ('float',), ('rule', ('float',), {'const': 0.0})), ('union', ('dc', 'TInner'), I),
-                ('union', ('rule', I, {'gt': 0}), S)],
+                ('union', ('rule', I, {'gt': 0}), S), ('xor', ('rule', I, {'ge': 0}), ('rule', I, {'le': 5})),
+                ('list', ('xor', ('rule', I, {'multiple_of': 2}), ('rule', I, {'lt': 3})))],
     'dataclass': [('dc', 'TInner'), ('dc', 'TOuter'), ('dc', 'TNoIn')],
 }
 TYPES = {}
